@@ -158,3 +158,65 @@ package dtls
 //@ loop #1: bounded: len(RS(state).LocalSequenceNumber) <= int(s.localEpoch) + 1
 //@ loop #1: kept: state != nil && RS(state) != nil && s.localEpoch == old(s.localEpoch) && s.sequenceNumber == old(s.sequenceNumber)
 //@ end
+
+// initializedCipherSuite: the suite object that a resumed / exported State works with. The suite is
+// looked up by the exported identifier; an identifier that names no suite (corrupted bytes) is
+// rejected with an error before anything is done with the lookup result (never a panic: the implicit
+// nil obligations of this function are part of the check). A suite that is not yet initialised is
+// keyed with exactly the exported master secret and the two exported randoms in role order
+// (RFC 5246 6.3: key_block = PRF(master_secret, "key expansion", server_random + client_random); the
+// Init signature is (masterSecret, clientRandom, serverRandom, isClient)).
+
+//@ define FORID_RET(x) retAs("ciphersuite.ForID", 0, x)
+//@ define RANDOM28(b, r) forall(0, 28, func(i int) bool { return b[4+i] == r.RandomBytes[i] })
+
+//@ func State.initializedCipherSuite
+//@ watch ciphersuite.ForID CipherSuite.IsInitialized CipherSuite.Init Random.MarshalFixed
+//@ requires receiver: s != nil
+//@ ensures lookup-by-exported-id: ncalls("ciphersuite.ForID") == 1 && argAs("ciphersuite.ForID", 0, s.CipherSuiteID) == s.CipherSuiteID
+//@ ensures unknown-suite-rejected: isNil(FORID_RET(result0)) ==> isNil(result0) && result1 != nil
+//@ ensures unknown-suite-untouched: isNil(FORID_RET(result0)) ==> !called("CipherSuite.IsInitialized") && !called("CipherSuite.Init")
+//@ ensures ok-is-the-looked-up-suite: result1 == nil ==> !isNil(result0) && sameRef(result0, FORID_RET(result0))
+//@ ensures error-no-suite: result1 != nil ==> isNil(result0)
+//@ ensures ok-is-initialized: result1 == nil ==> called("CipherSuite.IsInitialized") && (retBool("CipherSuite.IsInitialized", 0) || (called("CipherSuite.Init") && retErr("CipherSuite.Init", 0) == nil))
+//@ ensures already-initialized-not-rekeyed: called("CipherSuite.IsInitialized") && retBool("CipherSuite.IsInitialized", 0) ==> !called("CipherSuite.Init") && result1 == nil
+//@ ensures init-at-most-once: ncalls("CipherSuite.Init") <= 1 && ncalls("CipherSuite.IsInitialized") <= 1
+//@ ensures init-error-rejected: called("CipherSuite.Init") && retErr("CipherSuite.Init", 0) != nil ==> sameRef(result1, retErr("CipherSuite.Init", 0)) && isNil(result0)
+//@ ensures init-on-looked-up-suite: called("CipherSuite.Init") ==> sameRef(argAs("CipherSuite.Init", 0, result0), FORID_RET(result0))
+//@ ensures init-master-secret: called("CipherSuite.Init") ==> sameSlice(argBytes("CipherSuite.Init", 1), s.masterSecret)
+//@ ensures init-role: called("CipherSuite.Init") ==> argBool("CipherSuite.Init", 4) == s.isClient
+//@ ensures init-random-lengths: called("CipherSuite.Init") ==> len(argBytes("CipherSuite.Init", 2)) == 32 && len(argBytes("CipherSuite.Init", 3)) == 32
+// NOT CHECKED (engine limits, reported): which random goes first. The byte heap is summarised as written by Init
+// (8 implementations, type-wide write set), so the contents of the two random arguments cannot be read back after the
+// call, and a local array cannot be sliced or addressed in a clause (`localRandom[:]`, `&localRandom[0]`), so the
+// arguments cannot be identified with the two marshalled arrays either. Stated: two different 32-byte buffers, both
+// randoms were marshalled, the last one marshalled is the remote random of this State.
+//@ ensures init-randoms-distinct: called("CipherSuite.Init") ==> !sameArray(argBytes("CipherSuite.Init", 2), argBytes("CipherSuite.Init", 3))
+//@ ensures init-randoms-marshalled: called("CipherSuite.Init") ==> ncalls("Random.MarshalFixed") == 2 && argAs("Random.MarshalFixed", 0, &s.remoteRandom) == &s.remoteRandom
+//@ ensures exported-fields-kept: s.CipherSuiteID == old(s.CipherSuiteID) && s.isClient == old(s.isClient) && s.sequenceNumber == old(s.sequenceNumber)
+//@    && s.localEpoch == old(s.localEpoch) && s.remoteEpoch == old(s.remoteEpoch) && sameSlice(s.masterSecret, old(s.masterSecret))
+//@ end
+
+// UnmarshalBinary: bytes that gob rejects are rejected; DTLS 1.3 state is refused; otherwise the
+// decoded value is expanded (deserialize) and accepted only if the suite can be set up.
+
+//@ func State.UnmarshalBinary
+//@ watch Decoder.Decode State.deserialize State.initializedCipherSuite
+//@ requires receiver: s != nil
+//@ ensures decode-once: ncalls("Decoder.Decode") == 1
+//@ ensures undecodable-rejected: retErr("Decoder.Decode", 0) != nil ==> sameRef(result, retErr("Decoder.Decode", 0)) && !called("State.deserialize") && !called("State.initializedCipherSuite")
+//@ ensures dtls13-refused: retErr("Decoder.Decode", 0) == nil && V13(serialized.Version) ==> sameRef(result, ErrStateSerializationUnsupported) && !called("State.deserialize")
+//@ ensures ok-expanded-then-suite-checked: result == nil ==> calledBefore("State.deserialize", "State.initializedCipherSuite") && retErr("State.initializedCipherSuite", 1) == nil
+//@ ensures suite-error-rejected: called("State.initializedCipherSuite") && retErr("State.initializedCipherSuite", 1) != nil ==> result != nil
+//@ end
+
+// MarshalBinary: a State that cannot be serialised (no suite, DTLS 1.3) yields no bytes.
+
+//@ func State.MarshalBinary
+//@ watch State.serialize Encoder.Encode
+//@ requires receiver: s != nil
+//@ ensures serialize-once: ncalls("State.serialize") == 1
+//@ ensures unserializable-rejected: retErr("State.serialize", 1) != nil ==> result0 == nil && sameRef(result1, retErr("State.serialize", 1)) && !called("Encoder.Encode")
+//@ ensures encode-error-rejected: called("Encoder.Encode") && retErr("Encoder.Encode", 0) != nil ==> result0 == nil && result1 != nil
+//@ ensures ok-encoded: result1 == nil ==> called("Encoder.Encode") && retErr("Encoder.Encode", 0) == nil
+//@ end
